@@ -279,7 +279,7 @@ func c06Body(faulty bool) func(rc *RunCtx) {
 			total += k
 		}
 		simrt.SetStepsGuess(int64(total) * 120)
-		pace := simrt.Choose(5) // 0 burst, 1 occasional pauses, 2 slow senders, 3 around whole seconds, 4 right when a dial starts
+		pace := simrt.Choose(6) // 0 burst, 1 occasional pauses, 2 slow senders, 3 around whole seconds, 4 right when a dial starts, 5 long quiet periods
 		sentCount := 0
 		doSend := func(task int, it item, phase string) *c06Send {
 			p := c06MakePack(it.id, it.kind, it.size, it.pcode)
@@ -365,6 +365,11 @@ func c06Body(faulty bool) func(rc *RunCtx) {
 						// park until some task starts a connection attempt (or a few seconds pass), so
 						// that the next send overlaps a dial in flight
 						simrt.SleepOrWake(time.Duration(2000+simrt.Choose(7000))*time.Millisecond, &d.dialWait)
+					case 5:
+						// quiet periods around and beyond the client's own time-outs (60 s)
+						if simrt.Chance(1, 3) {
+							simrt.Sleep(time.Duration(55+simrt.Choose(80)) * time.Second)
+						}
 					case 2:
 						// slow senders: sends spread over many seconds, overlapping the background
 						// goroutine's 5 s wake-ups
